@@ -78,7 +78,11 @@ func (o Option) DesignateNode(key ...string) Option {
 // e.g.
 // DesignateNodeWithPath({"sub graph node key", "node key within sub graph"})
 func (o Option) DesignateNodeWithPath(path ...*NodePath) Option {
-	o.paths = append(o.paths, path...)
+	// copy: options derived from a common base option must not share (and overwrite) its backing array
+	nPaths := make([]*NodePath, 0, len(o.paths)+len(path))
+	nPaths = append(nPaths, o.paths...)
+	nPaths = append(nPaths, path...)
+	o.paths = nPaths
 	return o
 }
 
